@@ -39,6 +39,8 @@ def graph_shapes() -> dict[str, dict[str, list[str]]]:
 		'diamond': {'a': ['b', 'c'], 'b': ['d'], 'c': ['d'], 'd': []},
 		'fan3': {'a': ['b', 'c'], 'b': [], 'c': []},
 		'vee': {'a': ['c'], 'b': ['c'], 'c': []},
+		# names that are prefixes of each other / contain the persistor's infix / live in a sub-package (eviction globs)
+		'prefix4': {'a': ['ab'], 'ab': ['a_symbols'], 'a_symbols': ['sub.a'], 'sub.a': []},
 	}
 
 
@@ -51,7 +53,10 @@ def module_source(name: str, imports: list[str], variant: int) -> str:
 	ty, lit = TYPES[variant % 4]
 	var_mode = (variant // 4) % 3
 	loc_mode = (variant // 12) % 2
-	lines = [f'from {PKG}.{d} import g_{d}, v_{d}' for d in imports]
+	dotted = imports
+	name = name.replace('.', '_')
+	imports = [d.replace('.', '_') for d in imports]
+	lines = [f'from {PKG}.{d} import g_{i}, v_{i}' for d, i in zip(dotted, imports)]
 	lines += ['', f'def g_{name}() -> {ty}:', f'\treturn {lit}', '']
 	if imports and var_mode == 1:
 		lines.append(f'v_{name} = g_{imports[0]}()')
@@ -239,7 +244,7 @@ class RealCase:
 		"""imports + a content class: equal real file contents ⇔ equal class (the model hashes this text)."""
 		text = module_source(m, self.graph[m], self.variants[m])
 		cls = self.content_ids.setdefault(text, len(self.content_ids))
-		return ','.join(f'{PKG}/{d}' for d in self.graph[m]) + f';c{cls}'
+		return ','.join(f'{PKG}/' + d.replace('.', '/') for d in self.graph[m]) + f';c{cls}'
 
 	def target_order(self) -> list[str]:
 		from rogw.tranp.module.includer import include_module_paths
@@ -259,7 +264,7 @@ class RealCase:
 			t += 1
 			mt[m] = t
 		for key in self.target_order():
-			m = key.split('/')[-1]
+			m = key[len(PKG) + 1:].replace('/', '.')
 			lines.append(f'mod\t{key}\t{hx(self.toy_source(m))}\t{mt[m]}\t1')
 		return lines, ['ok'] * len(lines)
 
@@ -273,7 +278,7 @@ class RealCase:
 			m, v = op[1], int(op[2])
 			self.variants[m] = v
 			self.proj.write_module(m, module_source(m, self.graph[m], v))
-			return f'edit\t{PKG}/{m}\t{hx(self.toy_source(m))}', None
+			return f"edit\t{PKG}/{m.replace('.', '/')}\t{hx(self.toy_source(m))}", None
 		if kind == 'run':
 			force = op[1] == '1'
 			res = self.proj.run(force=force, cache_enabled=self.enabled)
@@ -463,7 +468,7 @@ def diagnose_warm_cold(ctx: Ctx, lib: LibInfo, case: 'RealCase', pre: tproj.Proj
 		for rel in pre.cache_files():
 			# only files the warm run restored from (opened for reading) can carry stale content into the output
 			if rel.startswith(f'{PKG}/') and '-symbols-' in rel and rel in snapshots and rel in hit:
-				m = rel[len(PKG) + 1:].split('-symbols-')[0]
+				m = rel[len(PKG) + 1:].split('-symbols-')[0].replace('/', '.')
 				changed = {x for x in closure(case.graph, m) | {m} if snapshots[rel].get(x) != current[x]}
 				if not changed:
 					continue
@@ -726,16 +731,56 @@ def search_disabled(ctx: Ctx) -> SearchResult:
 # ---------------------------------------------------------------------------------------------
 
 
-STATEMENTS: dict[str, str] = {}
+STATEMENTS: dict[str, str] = {
+	'tree_key': 'for every semantics with injective digests, every history (edit with fresh mtime / run / run -f / clear / delete / trunc / enable) from an empty project and cache, and every run: each tree the run obtains (cached or not) is the fresh parse of the module\'s current source',
+	'tree_key_warm_cold': 'hence the tree of a module in the warm run equals its tree in the run over the cleared cache directory',
+	'evict_keeps_written': 'after a cache miss the file named by the current identity exists and holds the fresh value, whatever the eviction glob matched',
+	'evict_safe': 'both coherence invariants (tree cache, symbol cache) survive the deletion of an arbitrary list of cache files: the over-matching glob is benign',
+	'truncate': 'no proper prefix of the compact JSON encoding of an object/array is bracket-balanced outside string literals (JSON printer model)',
+	'symbols_statement (def)': 'tables of the warm run = tables of the cold run, all semantics/graphs/histories — FALSE on the code as it is',
+	'symbols_counterexample': 'negation of symbols_statement on the chain a→b→c (edit c): Module.identity covers direct imports only (F5)',
+	'symbols_partial': 'symbols_statement holds when what a dependant sees of a module depends on that module\'s own tree only (DirectOnly): every table of a run is the cache-free pureTable',
+	'symbols_partial_closure': 'for the closure-keyed (Merkle) identity: equal identities imply equal cache-free symbol tables, for all semantics, graphs, depths',
+	'disabled_statement (def)': 'enabled = False: no cache file opened/created/unlinked — FALSE on the code as it is',
+	'disabled_counterexample': 'negation: SymbolDBPersistor._can_store ignores enabled (F4)',
+	'disabled_partial': 'with the store gate of proposed/C05-store-when-disabled.diff: log empty and cache directory unchanged, for every world',
+}
 
 
 def run(ctx: Ctx) -> int:
 	proof = common.prove(ctx, PROP, leanchecker=ctx.thorough)
-	with ctx.timed('correspondence'):
-		streams = [stream_cachefs(ctx)]
-	with ctx.timed('search'):
-		searches = [search_warm_cold(ctx), search_truncation(ctx), search_disabled(ctx)]
-	return common.finish(ctx, proof, streams, searches, statements=STATEMENTS)
+	streams: list[Stream] = []
+	searches: list[SearchResult] = []
+	try:
+		lib_info(ctx)
+	except common.InfraError:
+		raise
+	except Exception as e:  # noqa: BLE001 - rule 14: the real loader failing on the shipped libraries is a finding, not a crash
+		res = SearchResult('Modules.libralies() with an empty cache directory succeeds')
+		res.cases = 1
+		res.findings.append(Finding(key=f'library-load-fails:{common.exc_enum(e)}', what=f'loading the shipped libraries with an empty cache fails: {type(e).__name__}: {e}'[:300],
+			replay={'search': 'library-load'}))
+		searches.append(res)
+	if not searches:
+		with ctx.timed('correspondence'):
+			streams = [stream_cachefs(ctx)]
+		with ctx.timed('search'):
+			searches = [search_warm_cold(ctx), search_truncation(ctx), search_disabled(ctx)]
+	return common.finish(ctx, proof, streams, searches, statements=STATEMENTS,
+		partial={
+			'sentence 1 (warm output = cold output)': 'proved on the model for the tree layer (tree_key) and — under DirectOnly or with the closure-keyed identity — for the symbol layer (symbols_partial*); FALSE in general (symbols_counterexample = F5); equality of the transpiled text follows from equal trees and tables because `render` is a function of them; the parser cache (pickle) is correspondence/search only',
+			'sentence 1 (no cache file read or written when disabled)': 'FALSE on the code (disabled_counterexample = F4); proved for the gated store (disabled_partial)',
+			'sentence 2 (damaged file: rebuild or fail)': 'truncate (JSON printer model) + Hyp.prefix_invalid inside tree_key/symbols_partial (histories contain trunc ops); pickle truncation is search only',
+			'search_only': 'failure status equality warm/cold; output text of the real renderer',
+		},
+		assumptions=[
+			'md5 is injective on the identities of a history and hex digests contain no "-" (Hyp.tree_inj, hash_inj, identL_inj, *_nodash) — hypotheses of the theorems, instantiated by unary codes in the examples',
+			'the JSON decoder rejects text whose brackets do not balance outside string literals; the encoders write valid text (Hyp.valid_parse, valid_analyse, prefix_invalid)',
+			'module keys contain no "-" and differ from "parser.cache" (KeyOK); the cache directory is disjoint from the source directories',
+			'import graphs are acyclic (Acyclic / cyc = false): with a cycle the table of a module depends on the entry point of the traversal',
+			'library modules are not edited during a history',
+		],
+		trusted=['lark (parser pickle), json, pickle, glob/fnmatch, os file-system semantics', 'sys.addaudithook reports every open()/unlink below the cache directory'])
 
 
 def replay(ctx: Ctx, path: str) -> int:
